@@ -118,8 +118,10 @@ pub fn oracle_bits(raw: &RawStream) -> String {
                     false
                 }
             }
-            | Raw::TextLine | Raw::CommentLine | Raw::Err => false,
-            | Raw::Unknown | Raw::Code => depth == 0,
+            | Raw::TextLine | Raw::CommentLine => false,
+            // text no token definition matches is still text the author wrote: outside comments
+            // the parser must get to see it (and reject it)
+            | Raw::Unknown | Raw::Code | Raw::Err => depth == 0,
         };
         bits.push(if emit { b'1' } else { b'0' });
     }
@@ -157,6 +159,17 @@ fn lexer_cases(src: &str, sink: &mut Sink, tag: &str) -> RawStream {
     let raw = raw_stream(src);
     if raw.classes.is_empty() {
         return raw;
+    }
+    // whatever no raw token covers must be one of the four characters the lexer skips
+    let mut covered = vec![false; src.len()];
+    for (a, b) in &raw.spans {
+        covered[*a..*b].fill(true);
+    }
+    if let Some((at, ch)) = src.char_indices().find(|(i, c)| !covered[*i] && !matches!(c, ' ' | '\t' | '\n' | '\u{c}')) {
+        sink.violation(
+            "c11-text-skipped-by-lexer",
+            serde_json::json!({"tag": tag, "source": src, "at": at, "character": format!("{:?}", ch)}),
+        );
     }
     let rs = raw_string(&raw);
     let bits = lexer_bits(src, &raw);
@@ -215,7 +228,14 @@ fn parse_case(src: &str, sink: &mut Sink, tag: &str) -> bool {
     }
 }
 
-const JUNK: [(&str, &str); 6] = [
+const JUNK: [(&str, &str); 13] = [
+    ("carriage-return", " \r\n "),
+    ("no-break-space", "\u{a0}"),
+    ("vertical-tab", "\u{b}"),
+    ("line-separator", "\u{2028}"),
+    ("ideographic-space", "\u{3000}"),
+    ("next-line", "\u{85}"),
+    ("byte-order-mark", "\u{feff}"),
     ("stray-close", " -/ "),
     ("stray-close-then-text", " -/ garbage ((( "),
     ("unknown-char", " § "),
@@ -224,7 +244,8 @@ const JUNK: [(&str, &str); 6] = [
     ("close-open", " -/ /- "),
 ];
 
-const LEXEMES: [&str; 24] = [
+const LEXEMES: [&str; 29] = [
+    "\r", "\u{a0}", "\u{b}", "\u{2028}", "\u{c}",
     "/-", "-/", "-- c\n", "--| t\n", "a", "B", "+K", ".d", "(", ")", "\"-/\"", "\"/-\"", "§", "\n",
     " ", "1", "-1", "let", "in", "=", "ret", "'x'", "{", "}",
 ];
